@@ -170,6 +170,11 @@ def gen(rng, idx, tier):
             case["ufo"]["lib"]["public.openTypeCategories"] = {gl[-1]["name"]: "mark",
                                                               gl[0]["name"]: "base"}
             case["lib_filters"] = [{"name": "DottedCircle", "pre": True}]
+            if len(gl) > 3 and rng.random() < 0.5:
+                # the font already has a dotted circle glyph that lacks the marks' anchors
+                gl[1]["unicodes"] = [0x25CC]
+                gl[1]["anchors"] = []
+                case["own_dotted_circle"] = True
         if rng.random() < 0.25:
             case["arg_filters"] = rng.sample(["PropagateAnchorsFilter", "SortContoursFilter",
                                               "DecomposeTransformedComponentsFilter"], 1)
@@ -547,7 +552,14 @@ def classify(v, case):
             return "explode_color_layers_filter_writes_source"
         uses_dc = ("DottedCircle" in str(case.get("fixture", "")) or any(
             f.get("name", "").lower().startswith("dottedcircle") for f in case.get("lib_filters") or []))
-        if uses_dc and ("uni25CC" in text or "dottedCircle" in text or "/features" in text
-                        or "public.openTypeCategories" in text):
-            return "dotted_circle_filter_writes_source"
+        if uses_dc:
+            # the listed mechanism writes the categories lib entry and the feature text only
+            if v["mech"] == "source_modified":
+                paths = [d[0] for d in det.get("diff", [])]
+                if paths and all(p == "/features" or (p.startswith("/lib/")
+                                                      and "public.openTypeCategories" in p)
+                                 for p in paths):
+                    return "dotted_circle_filter_writes_source"
+            elif "public.openTypeCategories" in text and "dottedCircle" in text:
+                return "dotted_circle_filter_writes_source"
     return None
